@@ -71,6 +71,7 @@ JudgeProbe(e) ==
              \cup If(~(mustAccept /\ e.out = "limit"), "C19:within-limit-rejected")
              \cup If(~(mustAccept /\ e.supplied /\ e.out \in {"other", "wrong"}), "TOOL:probe-failed-for-another-reason")
              \cup If(~(mustReject /\ passed), "C19:over-limit-accepted")
+             \cup If(~(mustReject /\ e.out = "panic"), "C19:over-limit-panicked")      \* a panic is not a rejection
              \cup If(~(mustReject /\ e.supplied /\ e.out \in {"other", "wrong"}), "TOOL:probe-failed-for-another-reason"),
       \* collections: count <= limit < count * item size is decided by the crate's documented accounting (bytes)
       drift |-> If(~(isColl /\ ~mustAccept /\ ~mustReject /\ e.out # "limit"), "collection-not-accounted-in-bytes")]
